@@ -646,6 +646,45 @@ def tower_history(g, rng, queries=()):
         cmds.append({"c": "pop", "n": 1}); cmds.append({"c": "check-sat"})
     return cmds
 
+def reenter_history(g, rng, queries=()):
+    """a level that is left and entered again: [F0 | A | C] check, pop 2, push, B, C again, check - the re-entered level
+    ends with the formula that was last on the stack before, at the same position, and the new formula B is what makes
+    the difference (in UF + arithmetic logics: B equates two variables that F0 tells apart through a function)"""
+    tb, S = g.tb, g.num
+    def num(c): return tb.num(c, S)
+    x, y, z = g.nums[:3]
+    if g.uf and "h" not in g.funs:
+        g._declare("h", (S,), S)
+    if g.uf:
+        hx, hy = tb.uf("h", [x], S), tb.uf("h", [y], S)
+        f0 = rng.choice([tb.app("not", [tb.app("=", [hx, hy])]), tb.app("<", [hx, hy]),
+                         tb.app("and", [tb.app("=", [hx, num(0)]), tb.app("not", [tb.app("=", [hy, num(0)])])])])
+        b = rng.choice([tb.app("and", [tb.app("<=", [x, y]), tb.app("<=", [y, x])]), tb.app("=", [x, y]),
+                        tb.app("and", [tb.app("=", [x, num(1)]), tb.app("=", [y, num(1)])])])
+    else:
+        f0 = tb.app("<", [x, y])
+        b = rng.choice([tb.app("<=", [y, x]), tb.app("=", [x, y])])
+    a = tb.app(rng.choice([">", ">=", "<"]), [z, num(rng.randint(-2, 2))])
+    c = tb.app(rng.choice(["<", "<=", ">"]), [z, num(rng.randint(3, 9))])
+    def A(t): return {"c": "assert", "t": t, "nm": "", "inner": []}
+    Q = [dict(q) for q in queries]
+    cmds = [A(f0)]
+    if rng.random() < 0.3:
+        cmds.append({"c": "check-sat"}); cmds += Q
+    two = rng.random() < 0.7
+    cmds += [{"c": "push", "n": 1}, A(a)]
+    if two:
+        cmds += [{"c": "push", "n": 1}]
+    cmds += [A(c), {"c": "check-sat"}] + Q
+    cmds += [{"c": "pop", "n": 2 if two else 1}, {"c": "push", "n": 1}]
+    order = rng.choice(["bc", "bc", "bc", "cb", "b"])
+    for ch in order:
+        cmds.append(A(b if ch == "b" else c))
+    cmds += [{"c": "check-sat"}] + Q
+    if rng.random() < 0.4:
+        cmds += [{"c": "pop", "n": 1}, {"c": "check-sat"}] + Q
+    return cmds
+
 def dlgraph_history(g, rng, queries=(), boolean=True):
     """difference-constraint graphs: several paths of different weight between the same vertices (diamonds), zero-weight
     cycles, and a negated bound whose value sits at, just below or just above the shortest path, or between the light and
